@@ -380,9 +380,9 @@ class LoopMixin:
         items = None
         if isinstance(it.extra, tuple) and it.extra[0] == "range":
             lo, hi = it.extra[1], it.extra[2]
-            vals_lo = self.enumerate_values(st, lo.z, limit=1)
-            vals_hi = self.enumerate_values(st, hi.z, limit=12)
             if lspec is None or lspec.unroll:
+                vals_lo = self.enumerate_values(st, lo.z, limit=1)
+                vals_hi = self.enumerate_values(st, hi.z, limit=12)
                 if vals_lo is not None and len(vals_lo) == 1 and vals_hi is not None:
                     res = []
                     for hv in vals_hi:
@@ -581,6 +581,7 @@ class LoopMixin:
                     new = SV(cur.t, z3.Concat(z3.SubSeq(cur.z, 0, k), z3.Unit(itz), z3.SubSeq(cur.z, k, n - k)))
                     s2.assume(z3.Length(new.z) == n + 1)
                     s2.assume(z3.Implies(k == n, new.z == z3.Concat(cur.z, z3.Unit(itz))))
+                    self.needs_shifted_instances = True
                     # element-wise description of the result (lemma instances for nth over the three-part concatenation)
                     j = z3.Int(sym.fresh_name("ij"))
                     s2.assume(z3.ForAll([j], z3.Implies(z3.And(j >= 0, j <= n),
